@@ -111,7 +111,8 @@ def World.copyAssign (w : World) (s d : Nat) : World :=
     | (h1, p1, false) => { (w.set d (some (vd1.setPtr p1))) with heap := h1, threw := true }
     | (h1, p1, true) =>
       match allocTable h1 vd.fixedLoc p1.alloc vs.cap with
-      | (h2, none) => { (w.set d (some (vd1.setPtr p1))) with heap := h2, threw := true }
+      -- the offset table could not be allocated: an empty vector without capacity in the new block (`vector.hpp` copy_assign)
+      | (h2, none) => { (w.set d (some { (vd1.setPtr p1) with cap := 0 })) with heap := h2, threw := true }
       | (h2, some t) =>
         let vd2 : Vec := { (vd1.setPtr p1) with tbl := t, cap := vs.cap, fs := vs.fs, mem := vs.mem, loc := vs.loc.relocated w.junk }
         { (w.set d (some vd2)) with heap := h2, threw := false }
